@@ -516,3 +516,12 @@ def vacancy_block_rules(ctx, prog):
                 ctx.ob("R9.vacancy-block-writes", f"{b.key.split('::')[-1]}|blocks.{m}", ok, b.loc(t["span"]), det)
     if n == 0:
         ctx.missing("R9.vacancy-block-writes", "writes to vacancy-map blocks")
+
+    # ---------------- rules shared with the sibling properties anchored in the same functions
+    ctx.import_rules("C02", {
+        "R3.double-remove-guard": "a second removal that updates the free list hands the slot of a live object to the next insert (address no longer exclusive)",
+        "R4.slab-count": "a count / free-list write made before the user initialiser survives its panic; the slab later hands out a slot index past its allocation or over a live object",
+        "R5.vacancy": "a vacancy bit that stays set on a full slab sends the next insert to slot index == capacity, outside the slab allocation",
+        "R11.lowest-vacancy-cache": "a stale vacancy cache sends an insert into a full slab",
+        "R12.counts-are-not-positions": "a slab bound derived from an object count drops a live object's storage",
+    })
